@@ -172,6 +172,19 @@ impl Report {
                 }
             }
         }
+        // remove stale replay artefacts of this property (earlier runs), keep the ones this run wrote
+        // and the ones known_findings.json refers to as documentation
+        let keep: Vec<String> = viol_json.iter().filter_map(|v| v["replay"].as_str().map(|s| s.to_string())).collect();
+        let kf_text = std::fs::read_to_string(root.join("known_findings.json")).unwrap_or_default();
+        if let Ok(rd) = std::fs::read_dir(root.join("replays")) {
+            for e in rd.flatten() {
+                let name = e.file_name().to_string_lossy().to_string();
+                let full = e.path().to_string_lossy().to_string();
+                if name.starts_with(&format!("{}-", self.prop)) && !keep.contains(&full) && !kf_text.contains(&name) {
+                    let _ = std::fs::remove_file(e.path());
+                }
+            }
+        }
         // floors
         for (k, min) in &self.floors {
             let got = self.counters.get(k).copied().unwrap_or(0);
